@@ -209,7 +209,8 @@ UseTrig(kind) == kind \in Triggers /\ trig > 0 /\ trig' = trig - 1 /\ UNCHANGED 
 \* ikesacontroller.py process_acquire: re-use the first listed IKE_SA with the peer that still takes new work (2 endpoints: every IKE_SA is with the peer) -
 \* an IKE_SA that has been rekeyed or is being deleted does not: its successor, or a new IKE_SA, serves the ACQUIRE - or create one
 ClosingStates == {"REKEYED", "DEL_AFTER_REKEY_IKE_SA_REQ_SENT", "DEL_IKE_SA_REQ_SENT", "DELETED"}
-UsableIdx(e) == {i \in 1..Len(table[e]) : sas[table[e][i]].st \notin ClosingStates}
+\* (... nor does a half-open responder: whoever sent its IKE_SA_INIT request has proven nothing yet and may never go on)
+UsableIdx(e) == {i \in 1..Len(table[e]) : sas[table[e][i]].st \notin ClosingStates \cup {"INIT_RES_SENT"}}
 CtlAcquire(e) ==
   /\ UseTrig("acquire")
   /\ LET exists == UsableIdx(e) # {}
